@@ -273,6 +273,42 @@ func c03Sites(x *core.X) []c03Site {
 }
 
 // c03Fault builds an ill-typed replacement for a node of (intended) type ty; it returns the fault class.
+// c03Blame returns the node of a c03Fault replacement at whose anchor the checker reports the fault (nil: the
+// convention does not single out one node of the harness model).
+func c03Blame(repl *core.X, class, detail string) *core.X {
+	switch class {
+	case "unknown-name", "unknown-function", "unknown-field", "unknown-method", "wrong-arity", "mismatched-operands":
+		if detail == "(I ? B : B) < B" {
+			return nil
+		}
+		if repl.K == "slice" {
+			// non-integer slice bound: reported at the bound
+			for _, b := range repl.A[1:] {
+				if b != nil {
+					return b
+				}
+			}
+		}
+		return repl
+	case "wrong-argument-type":
+		for i := len(repl.A) - 1; i >= 0; i-- {
+			a := repl.A[i]
+			if a != nil && (a.K != "var" || a.Name != "P") {
+				switch detail {
+				case "Cat(S, I)", "P.Label(I)", "Inc(S)", "Inc(F)", "IsPos(S)", "Half(I % 3)":
+					return a
+				}
+			}
+		}
+	case "non-boolean-condition", "non-collection-builtin-argument":
+		if repl.K == "len" {
+			return repl // reported at the builtin's name
+		}
+		return repl.A[0]
+	}
+	return nil
+}
+
 func c03Fault(t *rapid.T, ty *core.Ty) (repl *core.X, class, detail string) {
 	S, B, I, F := core.Var("S", core.TStr), core.Var("B", core.TBool), core.Var("I", core.TInt), core.Var("F", core.TF64)
 	pick := func(n int, l string) int { return rapid.IntRange(0, n-1).Draw(t, l) }
